@@ -428,6 +428,17 @@ func (n *verifNode) Ping(ctx context.Context) *red.StatusCmd {
 	n.rec(ctx, "Ping", nil, nil, nil)
 	return n.ansStatus()
 }
+
+// Pipelined: go-redis runs fn on a fresh pipeline, returns fn's error if it has
+// one and otherwise the outcome of sending the queued commands. The fake runs fn
+// (on a nil pipeline: the harness's fn queues nothing) and answers likewise.
+func (n *verifNode) Pipelined(ctx context.Context, fn func(red.Pipeliner) error) ([]red.Cmder, error) {
+	n.rec(ctx, "Pipelined", nil, nil, nil)
+	if err := fn(nil); err != nil {
+		return nil, err
+	}
+	return nil, n.err
+}
 func (n *verifNode) RPop(ctx context.Context, key string) *red.StringCmd {
 	n.rec(ctx, "RPop", vS(key), nil, nil)
 	return n.ansStr()
